@@ -35,6 +35,15 @@ CHECKS.update({
    note="as C10; a worker process killed by the Go runtime's unrecoverable out-of-memory (garbage frame length) is attributed to the journalled execution"),
 })
 
+CHECKS.update({
+ "C07": dict(level="fault_enumeration", ref="4 C07", technique="exhaustive enumeration of answer vectors at the plugin seam (model: sequential veto/drop semantics) + exhaustive enumeration of fault points (every byte offset of request and response, both ends of the trunk) on the full stack",
+   text="(1) every vector of answers (ok, 5 handler-error forms incl. status codes Unavailable/DeadlineExceeded, 6 transport-error forms incl. wrapped) of 1-3 plugins x request types x two consecutive requests against a sequential model: transport error => plugin skipped, closed and never called again; handler error => veto, no later plugin, no response. (2) full stack (real stubs, mux, ttrpc over unix sockets): for each request type and victim position the victim's trunk is cut after every byte of the request and of the response, on the plugin's end and on the runtime's end (partial writes), plus black hole, stub stopped before/inside/after the handler, handler hanging past the 150 ms request timeout, deliberate handler error; the request must return within plugins x timeout + 6 s, carry exactly the survivors' contributions, the victim is pruned and never called again, teardown does not hang.",
+   note="layer 2 is exhaustive over fault points, not over interleavings (ttrpc goroutines run free); a violation is believed only if it reproduces on re-execution; byte counts are measured per (request type, plugins, victim) and checked for reproducibility"),
+ "C09": dict(level="model_checking", ref="4 C09", technique="bounded-exhaustive enumeration of runtime states (counts x size distributions) through the real sender and real receiver joined by a transport seam applying ttrpc's real size rule",
+   text="Real plugin.synchronize (+recalcObjsPerSyncMsg) against the real stub.Synchronize/collectSync/deliverSync; the seam computes the exact encoded length of the ttrpc request envelope and rejects like ttrpc (exported OversizedMessageError, real 4 MiB limit) without copying payloads. States: all (pods, containers) in [0..12]^2 x 5 uniform sizes x 2 slice-capacity variants, every size vector over {tiny, 0.6 MiB, 2.1 MiB} for <= 2 pods and <= 5 containers (3/7 thorough), counts up to 3000 x 4 sizes, mixed, handler variants. Oracle: no panic, handler at most once with exactly the supplied objects in order (foreign objects beyond the slice length never transmitted), updates relayed, exchange ends within 4*(objects)+64 messages, failure only if a message of <= 8 objects was rejected, failed plugin closed.",
+   note="transport is a seam (lists are copied, objects are not); the full-stack family with real multi-MiB payloads is part of the transport harness (planned)"),
+})
+
 NOT_YET = {}
 
 def main():
